@@ -53,7 +53,9 @@ def gen_case(rng, tier):
                 ops.append(['unset', k])
         progs.append(ops)
     return {'progs': progs, 'pauses': rng.randrange(1 << 30),
-            'ctx': rng.choice([0.0, 0.0, 0.5, 1.0])}
+            'ctx': rng.choice([0.0, 0.0, 0.5, 1.0]),
+            # every other process works on a cache object that was pickled and unpickled
+            'pickled': rng.random() < 0.3}
 
 
 def gen_inject_case(rng, tier):
@@ -94,7 +96,7 @@ def kname(k, names=None):
 
 
 def child(p, ops, gpath, logf, seed, inject=0.0, wait_for=None, ctx=0.0, head=False,
-          names=None):
+          names=None, pickled=False):
     import random
     core.import_searchkit()
     import fasteners
@@ -111,6 +113,10 @@ def child(p, ops, gpath, logf, seed, inject=0.0, wait_for=None, ctx=0.0, head=Fa
     def mk_cache():
         """ an MPCache whose lock acquisitions / releases are logged """
         c = MPCache('cid', 'ctype', gpath)
+        if pickled:
+            # the object reached this process by pickling (Pool / executor arguments, a queue)
+            import pickle
+            c = pickle.loads(pickle.dumps(c))
         lk = c.cache_lock
         orig_acq, orig_rel = lk.acquire, lk.release
 
@@ -216,7 +222,8 @@ def run_impl(case):
     procs = [ctx.Process(target=child, args=(p, ops, os.path.join(tmp, 'g'), logf,
                                              case['pauses'], case.get('inject', 0.0),
                                              go if p else None, case.get('ctx', 0.0),
-                                             bool(case.get('head_start')), case.get('names')))
+                                             bool(case.get('head_start')), case.get('names'),
+                                             bool(case.get('pickled')) and p % 2 == 1))
              for p, ops in enumerate(case['progs'])]
     try:
         for pr in procs:
